@@ -3,24 +3,49 @@ open Lean
 namespace Pybtex.Drv.C05
 open Pybtex.Drv.DbJson
 
-/-- one reading mode: read the file (filtered by the citations or not), then `add_extra_citations` -/
+def pairsJ (l : List (Str × Str)) : Json := arr (l.map fun p => arr [strToJson p.1, strToJson p.2])
+
+/-- `[key, type, [[name, value], …]]` of every stored entry, in database order -/
+def contentsJ (db : BibData) : Json :=
+  optJ (fun l => arr (l.map fun p =>
+      arr [strToJson p.2.key, strToJson p.2.type, optJ pairsJ (CIDict.items p.2.fields)]))
+    (CIDict.items db.entries)
+
+/-- one reading mode: read the file (filtered by the citations or not), then `add_extra_citations`
+(twice on the same database object: the result may not depend on earlier calls) -/
 def modeJ (wanted : Option (List Str)) (file : List (Str × Entry)) (cits : List Str) (m : Int) : Json :=
   match BibData.readFile wanted file with
   | none => Json.str "KeyError"
   | some (db, rep0) =>
     let a := db.addExtraCitations cits m
+    let a2 := db.addExtraCitations cits m
     obj [("db", strs (CIDict.iter db.entries)),
          ("entry_keys", optJ (fun l => strs (l.map fun p => p.2.key)) (CIDict.items db.entries)),
+         ("contents", contentsJ db),
          ("read_reports", reportsJ rep0),
          ("expanded", strs (db.expandWildcard cits)),
-         ("resolved", strs a.1), ("reports", reportsJ a.2)]
+         ("resolved", strs a.1), ("reports", reportsJ a.2),
+         ("resolved_again", strs a2.1), ("reports_again", reportsJ a2.2)]
 
-def engineJ : Option EngineOut → Json
+def noteName : Str := "note".toList
+
+/-- the `note` of the entries a front end emits, read from the database it built (filtered reading) -/
+def engineNotes (file : List (Str × Entry)) (cits : List Str) (keys : List Str) : Json :=
+  match BibData.readFile (some cits) file with
+  | none => Json.null
+  | some (db, _) => arr (keys.map fun k =>
+      match db.entries.getItem k with
+      | none => Json.null
+      | some e => optJ strToJson (e.fields.getItem noteName))
+
+def engineJ (file : List (Str × Entry)) (cits : List Str) : Option EngineOut → Json
   | none => Json.str "KeyError"
-  | some o => obj [("keys", strs o.keys), ("reports", reportsJ o.reports)]
+  | some o => obj [("keys", strs o.keys), ("reports", reportsJ o.reports), ("notes", engineNotes file cits o.keys)]
 
 /-- `resolve`: file + citations + min_crossrefs → resolved list and reports, for both reading
-modes and both engine front ends (model), and the reference values (spec). -/
+modes and both engine front ends (model), and the reference values (spec).  A case may give the
+entries as several files (`split`): one reader object reads them one after the other into one
+database, which is reading their concatenation. -/
 def resolve (j : Json) : Except String Json := do
   let raw ← parseFile j
   let cits ← getStrList j "citations"
@@ -31,14 +56,18 @@ def resolve (j : Json) : Except String Json := do
   let res := Spec.resolved sdb cits m
   pure (obj [
     ("out", obj [("unfiltered", modeJ none file cits m), ("filtered", modeJ (some cits) file cits m),
-                 ("bibtex", engineJ (bibtexEngine file cits m)), ("python", engineJ (pythonEngine file cits m))]),
+                 ("bibtex", engineJ file cits (bibtexEngine file cits m)),
+                 ("python", engineJ file cits (pythonEngine file cits m))]),
     ("spec", obj [("db", strs (Spec.keys sdb)), ("repeated", strs (Spec.repeatedFrom [] sfile)),
                   ("expanded", strs (Spec.expanded sdb cits)),
                   ("extra", strs (Spec.extra sdb (Spec.expanded sdb cits) m)),
                   ("resolved", strs res),
-                  ("dangling", arr ((Spec.dangling sdb (Spec.expanded sdb cits)).map fun p => arr [strToJson p.1, strToJson p.2])),
+                  ("dangling", arr ((Spec.dangling sdb res).map fun p => arr [strToJson p.1, strToJson p.2])),
+                  ("dangling_cited", arr ((Spec.dangling sdb (Spec.expanded sdb cits)).map fun p => arr [strToJson p.1, strToJson p.2])),
                   ("missing", strs (Spec.missing sdb res)), ("present", strs (Spec.present sdb res)),
-                  ("proviso", Json.bool (Spec.proviso sfile cits))])])
+                  ("contents", arr (sdb.map fun e => arr [strToJson e.key, pairsJ e.fields])),
+                  ("proviso", Json.bool (Spec.proviso sfile cits)),
+                  ("proviso_strong", Json.bool (Spec.provisoStrong sfile cits))])])
 
 /-- driver ops of this property: (op name, handler) -/
 def handlers : List (String × (Json → Except String Json)) := [("resolve", resolve)]
